@@ -1,7 +1,7 @@
 (* C04 — table obligations: facts about the source as extracted into Tables.v on
    this run, each discharged by closed computation.  When the source changes
    shape exactly the lemma naming that shape stops checking. *)
-From G04 Require Import Access AccessCheck AccessProofs.
+From G04 Require Import Access AccessCheck AccessProofs TimeFrame.
 
 (* the four security modifiers are all registered, and before the httpspec stack *)
 Lemma ob_security_before_stack : order_ok control_order = true.
@@ -79,3 +79,10 @@ Proof. vm_compute. discriminate. Qed.
 (* time frame: start <= hour < end *)
 Lemma ob_timeframe_half_open : tf_start_inclusive = true /\ tf_end_exclusive = true.
 Proof. vm_compute. split; reflexivity. Qed.
+
+(* the weekday names --allow-time-frame accepts, short and long, Sunday = 0 *)
+Lemma ob_weekday_names :
+  weekday_names = [(b "mon", 1); (b "monday", 1); (b "tue", 2); (b "tuesday", 2); (b "wed", 3); (b "wednesday", 3);
+                   (b "thu", 4); (b "thursday", 4); (b "fri", 5); (b "friday", 5); (b "sat", 6); (b "saturday", 6);
+                   (b "sun", 0); (b "sunday", 0)].
+Proof. vm_compute. reflexivity. Qed.
